@@ -28,12 +28,15 @@ def gen_outcomes(rng, rcpts, L, bias):
     recipients stay outstanding"""
     out = []
     outstanding = list(rcpts)
+    partial_rounds = 0
     for n in range(L + 2):
         if not outstanding:
             break
         lat = rng.choice(bias.get('relay_lat', hq.LAT_RELAY))
         c = rng.random()
         pm = bias.get('p_map', 0.45)
+        if partial_rounds >= bias.get('max_partial_rounds', 99):
+            pm = 0.0
         if len(outstanding) >= 1 and c < pm:
             per = {}
             nxt = []
@@ -47,6 +50,8 @@ def gen_outcomes(rng, rcpts, L, bias):
                     nxt.append(r)
             out.append({'t': 'seq' if rng.random() < 0.2 else 'map', 'r': per,
                         'lat': lat})
+            if nxt and len(nxt) < len(outstanding):
+                partial_rounds += 1
             outstanding = nxt
         else:
             t = rng.choice(bias.get('whole', ['none', 'reply', 'temp', 'temp',
